@@ -48,7 +48,7 @@ Proof. exact da_never_matches_pdu2. Qed.
 Print Assumptions C17_da_never_matches_pdu2.
 
 (* the premise of abstracting from time in this property's model: the code it models waits, polls and gives up
-   exactly where the model says (primitive codes in Proofs/W_*.v); re-extracted from the source on every run *)
+   with exactly the kinds of primitives the model accounts for (codes in Proofs/W_*.v); re-extracted from the source on every run *)
 Require Import GV.Gen.Consts GV.Proofs.W_can GV.Proofs.W_net.
 Theorem C17_time_abstraction : waits_can = (@nil Z) /\ waits_net = (@nil Z).
 Proof. exact (conj w_can w_net). Qed.
